@@ -1,26 +1,999 @@
-//! Entry-style and remaining HashMap operations of the protocol (extension point).
+//! Entry-style and remaining HashMap operations of the protocol.
+//!
+//! One op line = ONE complete use of an entry object: the look-up that creates the entry, a chain of
+//! entry methods, and the drop of whatever is left. Every key/value object named in the op line is
+//! created *before* the collection is called (like the arguments of `insert`), so that unwinding out of
+//! the call drops them (logged). Objects that the API hands back are dropped after `quiet()`;
+//! objects the chain never consumed are dropped explicitly while `loud()` (logged).
 use crate::elems::*;
-use crate::exec::{RefMap, M};
+use crate::exec::{fmt_kv, fmt_v, loud, new_map, quiet, RefMap, M};
+use crate::tape::{self, TapeAlloc};
+use hashbrown::hash_map::{Entry, EntryRef, RawEntryMut, RustcEntry};
+use std::cell::Cell;
+
+thread_local! {
+    /// identity of the key object that the next `K::from(&Q)` produces
+    static REF_KID: Cell<u64> = const { Cell::new(0) };
+    /// did `K::from(&Q)` run during the current op?
+    static REF_CONVERTED: Cell<bool> = const { Cell::new(false) };
+}
+
+impl<'a, P: Pad> From<&'a Q> for KD<P> {
+    fn from(q: &'a Q) -> Self {
+        REF_CONVERTED.set(true);
+        KD { k: q.0, id: REF_KID.get(), pad: P::default() }
+    }
+}
+impl<'a, P: Pad> From<&'a Q> for KC<P> {
+    fn from(q: &'a Q) -> Self {
+        REF_CONVERTED.set(true);
+        KC { k: q.0, id: REF_KID.get(), pad: P::default() }
+    }
+}
+
+type E<'a, K, V> = Entry<'a, K, V, IdBuild, TapeAlloc>;
+type ER<'a, 'b, K, V> = EntryRef<'a, 'b, K, Q, V, IdBuild, TapeAlloc>;
+type RE<'a, K, V> = RawEntryMut<'a, K, V, IdBuild, TapeAlloc>;
+type RU<'a, K, V> = RustcEntry<'a, K, V, TapeAlloc>;
+
+fn fmt_k<K: KeyT>(k: &K) -> String {
+    if K::IDS {
+        format!("{}.{}", k.k(), k.id())
+    } else {
+        format!("{}.0", k.k())
+    }
+}
+
+fn etag<K, V>(e: &E<'_, K, V>) -> &'static str {
+    match e {
+        Entry::Occupied(_) => "occ",
+        Entry::Vacant(_) => "vac",
+    }
+}
+fn fmt_entry<K: KeyT, V: ValT>(e: &E<'_, K, V>) -> String {
+    match e {
+        Entry::Occupied(oe) => format!("occ:{}", fmt_kv(oe.key(), oe.get())),
+        Entry::Vacant(ve) => format!("vac:{}", fmt_k(ve.key())),
+    }
+}
+fn bad(name: &str, a: &[&str]) -> String {
+    format!("bad-op {} {}", name, a.join(" "))
+}
+
+/// `map.entry(K(k, kid))` + chain.
+fn run_entry_chain<K: KeyT, V: ValT>(m: &mut M<K, V>, k: u64, kid: u64, ch: &[&str]) -> String {
+    let n = |i: usize| -> u64 { ch[i].parse().unwrap() };
+    let key = K::new(k, kid);
+    match (ch[0], ch.len()) {
+        ("insert", 3) => {
+            let val = V::new(n(1), n(2));
+            let e = m.entry(key);
+            let tag = etag(&e);
+            let oe = e.insert(val);
+            format!("{} {}", tag, fmt_kv(oe.key(), oe.get()))
+        }
+        ("or_insert", 3) => {
+            let val = V::new(n(1), n(2));
+            let e = m.entry(key);
+            let tag = etag(&e);
+            let v = e.or_insert(val);
+            format!("{} {}", tag, fmt_v::<K, V>(v))
+        }
+        ("or_insert_with", 3) => {
+            let val = V::new(n(1), n(2));
+            let e = m.entry(key);
+            let tag = etag(&e);
+            let v = e.or_insert_with(move || val);
+            format!("{} {}", tag, fmt_v::<K, V>(v))
+        }
+        ("or_insert_with_key", 3) => {
+            let val = V::new(n(1), n(2));
+            let e = m.entry(key);
+            let tag = etag(&e);
+            let v = e.or_insert_with_key(move |kk: &K| {
+                let mut val = val;
+                val.set_v(val.v() + kk.id());
+                val
+            });
+            format!("{} {}", tag, fmt_v::<K, V>(v))
+        }
+        ("and_modify", 5) if ch[2] == "or_insert" => {
+            let nv = n(1);
+            let val = V::new(n(3), n(4));
+            let e = m.entry(key);
+            let tag = etag(&e);
+            let v = e.and_modify(|x| x.set_v(nv)).or_insert(val);
+            format!("{} {}", tag, fmt_v::<K, V>(v))
+        }
+        ("key", 1) => {
+            let e = m.entry(key);
+            format!("{} {}", etag(&e), fmt_k(e.key()))
+        }
+        ("drop", 1) => {
+            let e = m.entry(key);
+            let tag = etag(&e);
+            drop(e);
+            tag.into()
+        }
+        ("occ_remove", 1) => match m.entry(key) {
+            Entry::Occupied(oe) => {
+                let v = oe.remove();
+                quiet();
+                format!("occ {}", fmt_v::<K, V>(&v))
+            }
+            Entry::Vacant(ve) => {
+                drop(ve);
+                "vac".into()
+            }
+        },
+        ("occ_remove_entry", 1) => match m.entry(key) {
+            Entry::Occupied(oe) => {
+                let (k2, v2) = oe.remove_entry();
+                quiet();
+                format!("occ {}", fmt_kv(&k2, &v2))
+            }
+            Entry::Vacant(ve) => {
+                drop(ve);
+                "vac".into()
+            }
+        },
+        ("occ_insert", 3) => {
+            let val = V::new(n(1), n(2));
+            match m.entry(key) {
+                Entry::Occupied(mut oe) => {
+                    let old = oe.insert(val);
+                    quiet();
+                    format!("occ {}", fmt_v::<K, V>(&old))
+                }
+                Entry::Vacant(ve) => {
+                    drop(ve);
+                    drop(val);
+                    "vac".into()
+                }
+            }
+        }
+        ("occ_get_mut", 2) => match m.entry(key) {
+            Entry::Occupied(mut oe) => {
+                oe.get_mut().set_v(n(1));
+                format!("occ {}", fmt_v::<K, V>(oe.get()))
+            }
+            Entry::Vacant(ve) => {
+                drop(ve);
+                "vac".into()
+            }
+        },
+        ("replace_entry_with", 3) => {
+            let (keep, nv) = (ch[1] == "keep", n(2));
+            match m.entry(key) {
+                Entry::Occupied(oe) => {
+                    let r = oe.replace_entry_with(|_k, mut v| {
+                        if keep {
+                            v.set_v(nv);
+                            Some(v)
+                        } else {
+                            None
+                        }
+                    });
+                    format!("occ {}", fmt_entry(&r))
+                }
+                Entry::Vacant(ve) => {
+                    drop(ve);
+                    "vac".into()
+                }
+            }
+        }
+        ("and_replace_entry_with", 3) => {
+            let (keep, nv) = (ch[1] == "keep", n(2));
+            let e = m.entry(key);
+            let tag = etag(&e);
+            let r = e.and_replace_entry_with(|_k, mut v| {
+                if keep {
+                    v.set_v(nv);
+                    Some(v)
+                } else {
+                    None
+                }
+            });
+            format!("{} {}", tag, fmt_entry(&r))
+        }
+        ("vac_insert", 3) => {
+            let val = V::new(n(1), n(2));
+            match m.entry(key) {
+                Entry::Vacant(ve) => {
+                    let v = ve.insert(val);
+                    format!("vac {}", fmt_v::<K, V>(v))
+                }
+                Entry::Occupied(_) => {
+                    drop(val);
+                    "occ".into()
+                }
+            }
+        }
+        ("vac_insert_entry", 3) => {
+            let val = V::new(n(1), n(2));
+            match m.entry(key) {
+                Entry::Vacant(ve) => {
+                    let oe = ve.insert_entry(val);
+                    format!("vac {}", fmt_kv(oe.key(), oe.get()))
+                }
+                Entry::Occupied(_) => {
+                    drop(val);
+                    "occ".into()
+                }
+            }
+        }
+        ("vac_into_key", 1) => match m.entry(key) {
+            Entry::Vacant(ve) => {
+                let k2 = ve.into_key();
+                quiet();
+                format!("vac {}", fmt_k(&k2))
+            }
+            Entry::Occupied(_) => "occ".into(),
+        },
+        _ => {
+            quiet();
+            bad("entry", ch)
+        }
+    }
+}
+
+/// `map.entry_ref(&Q(k))` + chain; a vacant entry converts `&Q` into a key object with id `newkid`.
+fn run_entry_ref_chain<K, V>(m: &mut M<K, V>, k: u64, newkid: u64, ch: &[&str]) -> String
+where
+    K: KeyT + for<'a> From<&'a Q>,
+    V: ValT,
+{
+    let n = |i: usize| -> u64 { ch[i].parse().unwrap() };
+    REF_KID.set(newkid);
+    let q = Q(k);
+    fn tag<K, V>(e: &ER<'_, '_, K, V>) -> &'static str {
+        match e {
+            EntryRef::Occupied(_) => "occ",
+            EntryRef::Vacant(_) => "vac",
+        }
+    }
+    match (ch[0], ch.len()) {
+        ("insert", 3) => {
+            let val = V::new(n(1), n(2));
+            let e: ER<'_, '_, K, V> = m.entry_ref(&q);
+            let t = tag(&e);
+            let oe = e.insert(val);
+            format!("{} {}", t, fmt_kv(oe.key(), oe.get()))
+        }
+        ("or_insert", 3) => {
+            let val = V::new(n(1), n(2));
+            let e: ER<'_, '_, K, V> = m.entry_ref(&q);
+            let t = tag(&e);
+            let v = e.or_insert(val);
+            format!("{} {}", t, fmt_v::<K, V>(v))
+        }
+        ("or_insert_with", 3) => {
+            let val = V::new(n(1), n(2));
+            let e: ER<'_, '_, K, V> = m.entry_ref(&q);
+            let t = tag(&e);
+            let v = e.or_insert_with(move || val);
+            format!("{} {}", t, fmt_v::<K, V>(v))
+        }
+        ("and_modify", 5) if ch[2] == "or_insert" => {
+            let nv = n(1);
+            let val = V::new(n(3), n(4));
+            let e: ER<'_, '_, K, V> = m.entry_ref(&q);
+            let t = tag(&e);
+            let v = e.and_modify(|x| x.set_v(nv)).or_insert(val);
+            format!("{} {}", t, fmt_v::<K, V>(v))
+        }
+        ("drop", 1) => {
+            let e: ER<'_, '_, K, V> = m.entry_ref(&q);
+            let t = tag(&e);
+            drop(e);
+            t.into()
+        }
+        // `EntryRef::key` needs `K: Borrow<Q>`; the per-variant accessors do not
+        ("key", 1) => match m.entry_ref(&q) {
+            EntryRef::Occupied(oe) => format!("occ {}", oe.key().k()),
+            EntryRef::Vacant(ve) => format!("vac {}", ve.key().0),
+        },
+        _ => bad("entry_ref", ch),
+    }
+}
+
+/// `entry_ref` needs `K: From<&Q>`, which `KeyT` does not promise: dispatch on the concrete element
+/// types of `exec::make_runner` (an unknown combination yields `bad-op`).
+fn entry_ref_dispatch<K: KeyT, V: ValT>(m: &mut M<K, V>, k: u64, newkid: u64, ch: &[&str]) -> String {
+    let any: &mut dyn std::any::Any = m;
+    macro_rules! go {
+        ($($kt:ty, $vt:ty);*) => {
+            $(
+                if let Some(mm) = any.downcast_mut::<M<$kt, $vt>>() {
+                    return run_entry_ref_chain::<$kt, $vt>(mm, k, newkid, ch);
+                }
+            )*
+        };
+    }
+    go!(KD<()>, VD; KC<()>, VC; KD<A16>, VD; KC<A16>, VC; KD<A32>, VD; KC<A32>, VC; KD<A64>, VD; KC<A64>, VC; KD<Big>, VD; KC<Big>, VC);
+    bad("entry_ref(no From<&Q> for this key type)", ch)
+}
+
+/// `map.rustc_entry(K(k, kid))` + chain.
+fn run_rustc_chain<K: KeyT, V: ValT>(m: &mut M<K, V>, k: u64, kid: u64, ch: &[&str]) -> String {
+    let n = |i: usize| -> u64 { ch[i].parse().unwrap() };
+    let key = K::new(k, kid);
+    fn tag<K, V>(e: &RU<'_, K, V>) -> &'static str {
+        match e {
+            RustcEntry::Occupied(_) => "occ",
+            RustcEntry::Vacant(_) => "vac",
+        }
+    }
+    match (ch[0], ch.len()) {
+        ("insert", 3) => {
+            let val = V::new(n(1), n(2));
+            let e = m.rustc_entry(key);
+            let t = tag(&e);
+            let oe = e.insert(val);
+            format!("{} {}", t, fmt_kv(oe.key(), oe.get()))
+        }
+        ("or_insert", 3) => {
+            let val = V::new(n(1), n(2));
+            let e = m.rustc_entry(key);
+            let t = tag(&e);
+            let v = e.or_insert(val);
+            format!("{} {}", t, fmt_v::<K, V>(v))
+        }
+        ("occ_remove", 1) => match m.rustc_entry(key) {
+            RustcEntry::Occupied(oe) => {
+                let v = oe.remove();
+                quiet();
+                format!("occ {}", fmt_v::<K, V>(&v))
+            }
+            RustcEntry::Vacant(ve) => {
+                drop(ve);
+                "vac".into()
+            }
+        },
+        ("occ_insert", 3) => {
+            let val = V::new(n(1), n(2));
+            match m.rustc_entry(key) {
+                RustcEntry::Occupied(mut oe) => {
+                    let old = oe.insert(val);
+                    quiet();
+                    format!("occ {}", fmt_v::<K, V>(&old))
+                }
+                RustcEntry::Vacant(ve) => {
+                    drop(ve);
+                    drop(val);
+                    "vac".into()
+                }
+            }
+        }
+        ("vac_insert", 3) => {
+            let val = V::new(n(1), n(2));
+            match m.rustc_entry(key) {
+                RustcEntry::Vacant(ve) => {
+                    let v = ve.insert(val);
+                    format!("vac {}", fmt_v::<K, V>(v))
+                }
+                RustcEntry::Occupied(_) => {
+                    drop(val);
+                    "occ".into()
+                }
+            }
+        }
+        ("vac_insert_entry", 3) => {
+            let val = V::new(n(1), n(2));
+            match m.rustc_entry(key) {
+                RustcEntry::Vacant(ve) => {
+                    let oe = ve.insert_entry(val);
+                    format!("vac {}", fmt_kv(oe.key(), oe.get()))
+                }
+                RustcEntry::Occupied(_) => {
+                    drop(val);
+                    "occ".into()
+                }
+            }
+        }
+        ("drop", 1) => {
+            let e = m.rustc_entry(key);
+            let t = tag(&e);
+            drop(e);
+            t.into()
+        }
+        _ => {
+            quiet();
+            bad("rustc_entry", ch)
+        }
+    }
+}
+
+fn raw_look<'a, K: KeyT, V: ValT>(m: &'a mut M<K, V>, mode: &str, k: u64) -> RE<'a, K, V> {
+    match mode {
+        "raw_from_key" => m.raw_entry_mut().from_key(&Q(k)),
+        "raw_from_key_hashed" => m.raw_entry_mut().from_key_hashed_nocheck(tape::plan_hash(k), &Q(k)),
+        _ => m.raw_entry_mut().from_hash(tape::plan_hash(k), |kk: &K| tape::eq_of(k, kk.k())),
+    }
+}
+
+/// `map.raw_entry_mut().from_…(k)` + chain.
+fn run_raw_chain<K: KeyT, V: ValT>(m: &mut M<K, V>, mode: &str, k: u64, ch: &[&str]) -> String {
+    let n = |i: usize| -> u64 { ch[i].parse().unwrap() };
+    fn tag<K, V>(e: &RE<'_, K, V>) -> &'static str {
+        match e {
+            RawEntryMut::Occupied(_) => "occ",
+            RawEntryMut::Vacant(_) => "vac",
+        }
+    }
+    match (ch[0], ch.len()) {
+        ("insert", 4) => {
+            let key = K::new(k, n(1));
+            let val = V::new(n(2), n(3));
+            let e = raw_look(m, mode, k);
+            let t = tag(&e);
+            let oe = e.insert(key, val);
+            format!("{} {}", t, fmt_kv(oe.key(), oe.get()))
+        }
+        ("or_insert", 4) => {
+            let key = K::new(k, n(1));
+            let val = V::new(n(2), n(3));
+            let e = raw_look(m, mode, k);
+            let t = tag(&e);
+            let (k2, v2) = e.or_insert(key, val);
+            format!("{} {}", t, fmt_kv(&*k2, &*v2))
+        }
+        ("vac_insert", 4) | ("vac_insert_hashed", 4) | ("vac_insert_with_hasher", 4) => {
+            let key = K::new(k, n(1));
+            let val = V::new(n(2), n(3));
+            match raw_look(m, mode, k) {
+                RawEntryMut::Vacant(ve) => {
+                    let (k2, v2) = match ch[0] {
+                        "vac_insert" => ve.insert(key, val),
+                        "vac_insert_hashed" => ve.insert_hashed_nocheck(tape::plan_hash(k), key, val),
+                        _ => ve.insert_with_hasher(tape::plan_hash(k), key, val, |kk: &K| tape::hash_of(kk.k())),
+                    };
+                    format!("vac {}", fmt_kv(&*k2, &*v2))
+                }
+                RawEntryMut::Occupied(_) => {
+                    drop(val);
+                    drop(key);
+                    "occ".into()
+                }
+            }
+        }
+        ("occ_remove", 1) => match raw_look(m, mode, k) {
+            RawEntryMut::Occupied(oe) => {
+                let v = oe.remove();
+                quiet();
+                format!("occ {}", fmt_v::<K, V>(&v))
+            }
+            RawEntryMut::Vacant(_) => "vac".into(),
+        },
+        ("occ_remove_entry", 1) => match raw_look(m, mode, k) {
+            RawEntryMut::Occupied(oe) => {
+                let (k2, v2) = oe.remove_entry();
+                quiet();
+                format!("occ {}", fmt_kv(&k2, &v2))
+            }
+            RawEntryMut::Vacant(_) => "vac".into(),
+        },
+        ("occ_insert", 3) => {
+            let val = V::new(n(1), n(2));
+            match raw_look(m, mode, k) {
+                RawEntryMut::Occupied(mut oe) => {
+                    let old = oe.insert(val);
+                    quiet();
+                    format!("occ {}", fmt_v::<K, V>(&old))
+                }
+                RawEntryMut::Vacant(_) => {
+                    drop(val);
+                    "vac".into()
+                }
+            }
+        }
+        ("occ_insert_key", 2) => {
+            let key = K::new(k, n(1));
+            match raw_look(m, mode, k) {
+                RawEntryMut::Occupied(mut oe) => {
+                    let old = oe.insert_key(key);
+                    quiet();
+                    format!("occ {}", fmt_k(&old))
+                }
+                RawEntryMut::Vacant(_) => {
+                    drop(key);
+                    "vac".into()
+                }
+            }
+        }
+        ("and_modify", 2) => {
+            let nv = n(1);
+            match raw_look(m, mode, k).and_modify(|_k, v| v.set_v(nv)) {
+                RawEntryMut::Occupied(oe) => format!("occ {}", fmt_kv(oe.key(), oe.get())),
+                RawEntryMut::Vacant(_) => "vac".into(),
+            }
+        }
+        ("replace_entry_with", 3) => {
+            let (keep, nv) = (ch[1] == "keep", n(2));
+            match raw_look(m, mode, k) {
+                RawEntryMut::Occupied(oe) => {
+                    let r = oe.replace_entry_with(|_k, mut v| {
+                        if keep {
+                            v.set_v(nv);
+                            Some(v)
+                        } else {
+                            None
+                        }
+                    });
+                    match r {
+                        RawEntryMut::Occupied(oe2) => format!("occ occ:{}", fmt_kv(oe2.key(), oe2.get())),
+                        RawEntryMut::Vacant(_) => "occ vac:".into(),
+                    }
+                }
+                RawEntryMut::Vacant(_) => "vac".into(),
+            }
+        }
+        ("drop", 1) => {
+            let e = raw_look(m, mode, k);
+            tag(&e).into()
+        }
+        _ => bad(mode, ch),
+    }
+}
+
+fn parse_items<K: KeyT, V: ValT>(a: &[&str]) -> Option<Vec<(K, V)>> {
+    let cnt: usize = a.first()?.parse().ok()?;
+    if a.len() != 1 + 4 * cnt {
+        return None;
+    }
+    let p = |i: usize| -> u64 { a[i].parse().unwrap() };
+    Some((0..cnt).map(|j| (K::new(p(1 + 4 * j), p(2 + 4 * j)), V::new(p(3 + 4 * j), p(4 + 4 * j)))).collect())
+}
+
+fn get_many<K: KeyT, V: ValT, const N: usize>(m: &mut M<K, V>, a: &[&str], kv: bool) -> String {
+    let qs: [Q; N] = std::array::from_fn(|i| Q(a[i].parse().unwrap()));
+    let refs: [&Q; N] = std::array::from_fn(|i| &qs[i]);
+    let mut out = Vec::new();
+    if kv {
+        for (i, x) in m.get_many_key_value_mut(refs).into_iter().enumerate() {
+            match x {
+                Some((k, v)) => {
+                    out.push(fmt_kv(k, &*v));
+                    v.set_v(v.v() + 1000 * (i as u64 + 1));
+                }
+                None => out.push("-".into()),
+            }
+        }
+    } else {
+        for (i, x) in m.get_many_mut(refs).into_iter().enumerate() {
+            match x {
+                Some(v) => {
+                    out.push(fmt_v::<K, V>(&*v));
+                    v.set_v(v.v() + 1000 * (i as u64 + 1));
+                }
+                None => out.push("-".into()),
+            }
+        }
+    }
+    out.join(",")
+}
 
 /// Execute `name args` on `m` (`other` = the second collection). Unknown ops yield `bad-op`.
-pub fn run_entry<K: KeyT, V: ValT>(_m: &mut M<K, V>, _other: &mut M<K, V>, name: &str, _a: &[&str]) -> String {
-    format!("bad-op {}", name)
+pub fn run_entry<K: KeyT, V: ValT>(m: &mut M<K, V>, _other: &mut M<K, V>, name: &str, a: &[&str]) -> String {
+    let n = |i: usize| -> u64 { a[i].parse().unwrap() };
+    REF_CONVERTED.set(false);
+    match (name, a.len()) {
+        ("entry", l) if l >= 3 => run_entry_chain(m, n(0), n(1), &a[2..]),
+        ("entry_ref", l) if l >= 3 => entry_ref_dispatch(m, n(0), n(1), &a[2..]),
+        ("rustc_entry", l) if l >= 3 => run_rustc_chain(m, n(0), n(1), &a[2..]),
+        ("try_insert", 4) => {
+            let (k, kid) = (n(0), n(1));
+            let key = K::new(k, kid);
+            let val = V::new(n(2), n(3));
+            match m.try_insert(key, val) {
+                Ok(v) => format!("ok {}.{}.{}", k, if K::IDS { kid } else { 0 }, fmt_v::<K, V>(v)),
+                Err(err) => {
+                    let s = format!("err {}", fmt_kv(err.entry.key(), err.entry.get()));
+                    // the rejected value comes back inside the error
+                    quiet();
+                    drop(err);
+                    s
+                }
+            }
+        }
+        ("raw_from_key", l) | ("raw_from_key_hashed", l) | ("raw_from_hash", l) if l >= 2 => {
+            run_raw_chain(m, name, n(0), &a[1..])
+        }
+        ("raw_get", 1) => m.raw_entry().from_key(&Q(n(0))).map_or("-".into(), |(k, v)| fmt_kv(k, v)),
+        ("raw_get_hash", 1) => {
+            let k = n(0);
+            m.raw_entry()
+                .from_hash(tape::plan_hash(k), |kk: &K| tape::eq_of(k, kk.k()))
+                .map_or("-".into(), |(k, v)| fmt_kv(k, v))
+        }
+        ("extend", _) => match parse_items::<K, V>(a) {
+            Some(items) => {
+                m.extend(items);
+                "()".into()
+            }
+            None => bad(name, a),
+        },
+        ("from_iter", _) => match parse_items::<K, V>(a) {
+            Some(items) => {
+                let old = std::mem::replace(m, new_map());
+                drop(old);
+                *m = <M<K, V> as FromIterator<(K, V)>>::from_iter(items);
+                "()".into()
+            }
+            None => bad(name, a),
+        },
+        ("get_many_mut", l) | ("get_many_key_value_mut", l) if l <= 4 => {
+            let kv = name == "get_many_key_value_mut";
+            match l {
+                0 => get_many::<K, V, 0>(m, a, kv),
+                1 => get_many::<K, V, 1>(m, a, kv),
+                2 => get_many::<K, V, 2>(m, a, kv),
+                3 => get_many::<K, V, 3>(m, a, kv),
+                _ => get_many::<K, V, 4>(m, a, kv),
+            }
+        }
+        ("index", 1) => fmt_v::<K, V>(&m[&Q(n(0))]),
+        ("insert_unique_unchecked", 4) => {
+            let key = K::new(n(0), n(1));
+            let val = V::new(n(2), n(3));
+            // only generated for keys that are absent
+            let (k2, v2) = unsafe { m.insert_unique_unchecked(key, val) };
+            fmt_kv(k2, &*v2)
+        }
+        ("into_keys", 1) => {
+            let old = std::mem::replace(m, new_map());
+            let mut out = Vec::new();
+            {
+                let mut it = old.into_keys();
+                for _ in 0..n(0) {
+                    match it.next() {
+                        Some(k) => {
+                            out.push(fmt_k(&k));
+                            quiet();
+                            drop(k);
+                            loud();
+                        }
+                        None => break,
+                    }
+                }
+            }
+            out.join(",")
+        }
+        ("into_values", 1) => {
+            let old = std::mem::replace(m, new_map());
+            let mut out = Vec::new();
+            {
+                let mut it = old.into_values();
+                for _ in 0..n(0) {
+                    match it.next() {
+                        Some(v) => {
+                            out.push(fmt_v::<K, V>(&v));
+                            quiet();
+                            drop(v);
+                            loud();
+                        }
+                        None => break,
+                    }
+                }
+            }
+            out.join(",")
+        }
+        ("values_mut_set", 1) => {
+            let nv = n(0);
+            for v in m.values_mut() {
+                v.set_v(nv);
+            }
+            "()".into()
+        }
+        _ => bad(name, a),
+    }
+}
+
+type RE3 = (u64, u64, u64);
+
+/// Reference semantics of an `Entry`/`EntryRef`/`RustcEntry` chain on key `k`; `kid` is the identity
+/// a newly stored key object gets. Returns the expected return text.
+fn ref_echain(r: &mut RefMap, k: u64, kid: u64, ch: &[&str], by_ref: bool) -> Option<String> {
+    let n = |i: usize| -> u64 { ch[i].parse().unwrap() };
+    let fe = |e: &RE3| format!("{}.{}.{}.{}", k, e.0, e.1, e.2);
+    let fv = |e: &RE3| format!("{}.{}", e.1, e.2);
+    let cur = r.get(&k).copied();
+    Some(match (ch[0], cur) {
+        ("insert", Some(old)) => {
+            let e = (old.0, n(1), n(2));
+            r.insert(k, e);
+            format!("occ {}", fe(&e))
+        }
+        ("insert", None) | ("vac_insert_entry", None) => {
+            let e = (kid, n(1), n(2));
+            r.insert(k, e);
+            format!("vac {}", fe(&e))
+        }
+        ("or_insert", Some(old)) | ("or_insert_with", Some(old)) | ("or_insert_with_key", Some(old)) => {
+            format!("occ {}", fv(&old))
+        }
+        ("or_insert", None) | ("or_insert_with", None) | ("vac_insert", None) => {
+            let e = (kid, n(1), n(2));
+            r.insert(k, e);
+            format!("vac {}", fv(&e))
+        }
+        ("or_insert_with_key", None) => {
+            let e = (kid, n(1), n(2) + kid);
+            r.insert(k, e);
+            format!("vac {}", fv(&e))
+        }
+        ("and_modify", Some(old)) => {
+            let e = (old.0, old.1, n(1));
+            r.insert(k, e);
+            format!("occ {}", fv(&e))
+        }
+        ("and_modify", None) => {
+            let e = (kid, n(3), n(4));
+            r.insert(k, e);
+            format!("vac {}", fv(&e))
+        }
+        ("key", Some(old)) => {
+            if by_ref {
+                format!("occ {}", k)
+            } else {
+                format!("occ {}.{}", k, old.0)
+            }
+        }
+        ("key", None) => {
+            if by_ref {
+                format!("vac {}", k)
+            } else {
+                format!("vac {}.{}", k, kid)
+            }
+        }
+        ("occ_remove", Some(old)) => {
+            r.remove(&k);
+            format!("occ {}", fv(&old))
+        }
+        ("occ_remove_entry", Some(old)) => {
+            r.remove(&k);
+            format!("occ {}", fe(&old))
+        }
+        ("occ_insert", Some(old)) => {
+            r.insert(k, (old.0, n(1), n(2)));
+            format!("occ {}", fv(&old))
+        }
+        ("occ_get_mut", Some(old)) => {
+            let e = (old.0, old.1, n(1));
+            r.insert(k, e);
+            format!("occ {}", fv(&e))
+        }
+        ("replace_entry_with", Some(old)) | ("and_replace_entry_with", Some(old)) => {
+            if ch[1] == "keep" {
+                let e = (old.0, old.1, n(2));
+                r.insert(k, e);
+                format!("occ occ:{}", fe(&e))
+            } else {
+                r.remove(&k);
+                format!("occ vac:{}.{}", k, old.0)
+            }
+        }
+        ("and_replace_entry_with", None) => format!("vac vac:{}.{}", k, kid),
+        ("vac_into_key", None) => format!("vac {}.{}", k, kid),
+        (_, Some(_)) => "occ".into(),
+        (_, None) => "vac".into(),
+    })
+}
+
+fn ref_raw_chain(r: &mut RefMap, k: u64, ch: &[&str]) -> Option<String> {
+    let n = |i: usize| -> u64 { ch[i].parse().unwrap() };
+    let fe = |e: &RE3| format!("{}.{}.{}.{}", k, e.0, e.1, e.2);
+    let fv = |e: &RE3| format!("{}.{}", e.1, e.2);
+    let cur = r.get(&k).copied();
+    Some(match (ch[0], cur) {
+        ("insert", Some(old)) => {
+            let e = (old.0, n(2), n(3));
+            r.insert(k, e);
+            format!("occ {}", fe(&e))
+        }
+        ("or_insert", Some(old)) => format!("occ {}", fe(&old)),
+        ("insert", None)
+        | ("or_insert", None)
+        | ("vac_insert", None)
+        | ("vac_insert_hashed", None)
+        | ("vac_insert_with_hasher", None) => {
+            let e = (n(1), n(2), n(3));
+            r.insert(k, e);
+            format!("vac {}", fe(&e))
+        }
+        ("occ_remove", Some(old)) => {
+            r.remove(&k);
+            format!("occ {}", fv(&old))
+        }
+        ("occ_remove_entry", Some(old)) => {
+            r.remove(&k);
+            format!("occ {}", fe(&old))
+        }
+        ("occ_insert", Some(old)) => {
+            r.insert(k, (old.0, n(1), n(2)));
+            format!("occ {}", fv(&old))
+        }
+        ("occ_insert_key", Some(old)) => {
+            r.insert(k, (n(1), old.1, old.2));
+            format!("occ {}.{}", k, old.0)
+        }
+        ("and_modify", Some(old)) => {
+            let e = (old.0, old.1, n(1));
+            r.insert(k, e);
+            format!("occ {}", fe(&e))
+        }
+        ("replace_entry_with", Some(old)) => {
+            if ch[1] == "keep" {
+                let e = (old.0, old.1, n(2));
+                r.insert(k, e);
+                format!("occ occ:{}", fe(&e))
+            } else {
+                r.remove(&k);
+                "occ vac:".into()
+            }
+        }
+        (_, Some(_)) => "occ".into(),
+        (_, None) => "vac".into(),
+    })
 }
 
 /// Reference semantics: update `r` (target) / `o` (other) and return the expected return text
 /// (`Ok(None)` = no expectation), or `Err(complaint)`.
 pub fn ref_entry(
-    _r: &mut RefMap,
+    r: &mut RefMap,
     _o: &mut RefMap,
-    _name: &str,
-    _a: &[&str],
-    _ret: &str,
+    name: &str,
+    a: &[&str],
+    ret: &str,
     _actual: &RefMap,
 ) -> Result<Option<String>, String> {
-    Ok(None)
+    let n = |i: usize| -> u64 { a[i].parse().unwrap() };
+    let fe = |k: u64, e: &RE3| format!("{}.{}.{}.{}", k, e.0, e.1, e.2);
+    let fv = |e: &RE3| format!("{}.{}", e.1, e.2);
+    let ins = |r: &mut RefMap, k: u64, kid: u64, vid: u64, v: u64| match r.get(&k).copied() {
+        // plain `insert`: the key object already stored is kept
+        Some(old) => r.insert(k, (old.0, vid, v)),
+        None => r.insert(k, (kid, vid, v)),
+    };
+    Ok(match name {
+        "entry" | "rustc_entry" if a.len() >= 3 => ref_echain(r, n(0), n(1), &a[2..], false),
+        "entry_ref" if a.len() >= 3 => ref_echain(r, n(0), n(1), &a[2..], true),
+        "try_insert" if a.len() == 4 => match r.get(&n(0)).copied() {
+            Some(old) => Some(format!("err {}", fe(n(0), &old))),
+            None => {
+                let e = (n(1), n(2), n(3));
+                r.insert(n(0), e);
+                Some(format!("ok {}", fe(n(0), &e)))
+            }
+        },
+        "raw_from_key" | "raw_from_key_hashed" | "raw_from_hash" if a.len() >= 2 => ref_raw_chain(r, n(0), &a[1..]),
+        "raw_get" | "raw_get_hash" => Some(r.get(&n(0)).map_or("-".into(), |e| fe(n(0), e))),
+        "extend" | "from_iter" => {
+            if name == "from_iter" {
+                r.clear();
+            }
+            for j in 0..n(0) as usize {
+                ins(r, n(1 + 4 * j), n(2 + 4 * j), n(3 + 4 * j), n(4 + 4 * j));
+            }
+            Some("()".into())
+        }
+        "get_many_mut" | "get_many_key_value_mut" => {
+            let mut out = Vec::new();
+            let mut seen = std::collections::BTreeSet::new();
+            for i in 0..a.len() {
+                let k = n(i);
+                match r.get_mut(&k) {
+                    Some(e) => {
+                        if !seen.insert(k) {
+                            return Err(format!("{} handed out two references to key {}", name, k));
+                        }
+                        out.push(if name == "get_many_mut" { fv(e) } else { fe(k, e) });
+                        e.2 += 1000 * (i as u64 + 1);
+                    }
+                    None => out.push("-".into()),
+                }
+            }
+            Some(out.join(","))
+        }
+        "index" => match r.get(&n(0)) {
+            Some(e) => Some(fv(e)),
+            None => return Err(format!("index of absent key {} returned a value", n(0))),
+        },
+        "insert_unique_unchecked" => {
+            if r.contains_key(&n(0)) {
+                // misuse of the unsafe API: no expectation
+                *r = _actual.clone();
+                None
+            } else {
+                let e = (n(1), n(2), n(3));
+                r.insert(n(0), e);
+                Some(fe(n(0), &e))
+            }
+        }
+        "into_keys" | "into_values" => {
+            let got: Vec<&str> = if ret.is_empty() { vec![] } else { ret.split(',').collect() };
+            let want = std::cmp::min(n(0) as usize, r.len());
+            if got.len() != want {
+                return Err(format!("{} yielded {} items, expected {}", name, got.len(), want));
+            }
+            let mut seen = std::collections::BTreeSet::new();
+            for g in &got {
+                let hit = if name == "into_keys" {
+                    r.iter().find(|(k, e)| format!("{}.{}", k, e.0) == *g)
+                } else {
+                    r.iter().find(|(_, e)| fv(e) == *g)
+                };
+                match hit {
+                    Some((k, _)) if seen.insert(*k) => {}
+                    _ => return Err(format!("{} yielded {} which is not stored (or twice)", name, g)),
+                }
+            }
+            r.clear();
+            None
+        }
+        "values_mut_set" => {
+            for e in r.values_mut() {
+                e.2 = n(0);
+            }
+            Some("()".into())
+        }
+        _ => None,
+    })
 }
 
 /// Ids (`k<id>` / `v<id>`) of key/value objects that the op moves into the collection call.
-pub fn moved_in(_name: &str, _a: &[&str]) -> Vec<String> {
-    Vec::new()
+pub fn moved_in(name: &str, a: &[&str]) -> Vec<String> {
+    let mut out = Vec::new();
+    // value object of an `Entry`-style chain
+    let chain_val = |ch: &[&str], out: &mut Vec<String>| match ch.first().copied() {
+        Some("insert") | Some("or_insert") | Some("or_insert_with") | Some("or_insert_with_key")
+        | Some("occ_insert") | Some("vac_insert") | Some("vac_insert_entry")
+            if ch.len() == 3 =>
+        {
+            out.push(format!("v{}", ch[1]))
+        }
+        Some("and_modify") if ch.len() == 5 => out.push(format!("v{}", ch[3])),
+        _ => {}
+    };
+    match name {
+        "entry" | "rustc_entry" if a.len() >= 3 => {
+            out.push(format!("k{}", a[1]));
+            chain_val(&a[2..], &mut out);
+        }
+        "entry_ref" if a.len() >= 3 => {
+            // the key object exists only if `K::from(&Q)` ran
+            if REF_CONVERTED.replace(false) {
+                out.push(format!("k{}", a[1]));
+            }
+            chain_val(&a[2..], &mut out);
+        }
+        "try_insert" | "insert_unique_unchecked" if a.len() == 4 => {
+            out.push(format!("k{}", a[1]));
+            out.push(format!("v{}", a[2]));
+        }
+        "raw_from_key" | "raw_from_key_hashed" | "raw_from_hash" if a.len() >= 2 => {
+            let ch = &a[1..];
+            match (ch[0], ch.len()) {
+                ("insert", 4) | ("or_insert", 4) | ("vac_insert", 4) | ("vac_insert_hashed", 4)
+                | ("vac_insert_with_hasher", 4) => {
+                    out.push(format!("k{}", ch[1]));
+                    out.push(format!("v{}", ch[2]));
+                }
+                ("occ_insert", 3) => out.push(format!("v{}", ch[1])),
+                ("occ_insert_key", 2) => out.push(format!("k{}", ch[1])),
+                _ => {}
+            }
+        }
+        "extend" | "from_iter" if !a.is_empty() => {
+            let cnt: usize = a[0].parse().unwrap_or(0);
+            if a.len() == 1 + 4 * cnt {
+                for j in 0..cnt {
+                    out.push(format!("k{}", a[2 + 4 * j]));
+                    out.push(format!("v{}", a[3 + 4 * j]));
+                }
+            }
+        }
+        _ => {}
+    }
+    out
 }
